@@ -353,17 +353,12 @@ def fam_exhaustive(tier, tag, variants=("plain", "backing", "special", "backing_
         if sample and len(hs) > sample:
             hs = rng.sample(hs, sample)
         for k, h in enumerate(hs):
-            steps = []
-            for o in h["ops"]:
-                g, part = o["g"], o["part"]
-                if o["op"] in ("w", "d"):
-                    gb, n = {"full": (g * 2, 2), "head": (g * 2, 1), "tail": (g * 2 + 1, 1), "both": (0, 4)}[part]
-                    steps.append({"op": "write" if o["op"] == "w" else "discard", "gb": gb, "n": n})
-                else:
-                    steps.append({"op": {"f": "flush", "s": "fsync", "k": "shrink", "r": "reopen", "c": "check"}[o["op"]]})
-            steps += [rd, {"op": "flush"}, {"op": "fsync"}, rd, {"op": "reopen"}, rd]
+            lay = _exh_layout(v)
+            rdl = lay["rd"]
+            steps = list(lay["pre"]) + [_exh_step(o, lay) for o in h["ops"]]
+            steps += rdl + [{"op": "flush"}, {"op": "fsync"}] + rdl + [{"op": "reopen"}] + rdl
             code = "".join(o["op"] + (str(o["g"]) + o["part"][0] if o["op"] in "wd" else "") for o in h["ops"])
-            out.append(S.mk(f"{tag}-{v}-{code}", geo, imgs[v], steps, sample_flag=True))
+            out.append(S.mk(f"{tag}-{v}-{code}", lay["geo"], imgs[v], steps, sample_flag=True))
     return out
 
 
@@ -381,15 +376,33 @@ def _exh_images():
         # a backing image that ends inside guest cluster 1 (after its first block): data above it comes from nowhere
         "backing_short": [{"kind": "build", "desc": dict(base, clusters=[D(3, "data", 1)])},
                           {"kind": "build", "desc": dict(base, vclusters=2, size_minus_sectors=1, clusters=[D(0, "data", 2), D(1, "data", 2)])}],
+        "pressure": [{"kind": "build", "desc": {"cb": 10, "ro": 6, "vclusters": 200, "shuffle": 0, "holes": 0,
+                                                "clusters": [D(g, "data", 1) for g in range(200) if g not in (64, 70, 71, 130, 195, 196) and g % 7 != 5]}}],
         # two preallocated zero clusters side by side (one multi-cluster write reuses both)
         "prealloc2": [{"kind": "build", "desc": dict(base, clusters=[D(0, "zero_prealloc", 1), D(1, "zero_prealloc", 1), D(3, "data", 1)])}],
     }
 
 
-def _exh_step(o):
+_TINY = dict(geo=dict(cb=10, ro=4, bsb=9, vclusters=4, params={"l2": [9, 1024], "rb": [9, 1024]}), g={0: 0, 1: 1}, both=0,
+             rd=[{"op": "read", "gb": 0, "n": 8}], pre=[])
+# cache pressure: 2-slice caches, the two operated clusters behind different L2 slices (64 entries each), "both" across a slice
+# boundary, the host file spread over three refblock slices (64-bit refcounts: 64 per slice); every history first touches two
+# further L2 slices, so that the slices the operations use are evicted and reloaded along the way
+_PRESS = dict(geo=dict(cb=10, ro=6, bsb=9, vclusters=200, params={"l2": [9, 1024], "rb": [9, 1024]}), g={0: 3, 1: 70}, both=63,
+              rd=[{"op": "read", "gb": c * 2, "n": 2} for c in (3, 63, 64, 70)] + [{"op": "read", "gb": 130 * 2, "n": 2}],
+              pre=[{"op": "read", "gb": 130 * 2, "n": 1}, {"op": "write", "gb": 195 * 2, "n": 1}])
+
+
+def _exh_layout(variant):
+    return _PRESS if variant == "pressure" else _TINY
+
+
+def _exh_step(o, lay=None):
+    lay = lay or _TINY
     g, part = o["g"], o["part"]
     if o["op"] in ("w", "d"):
-        gb, n = {"full": (g * 2, 2), "head": (g * 2, 1), "tail": (g * 2 + 1, 1), "both": (0, 4)}[part]
+        c = lay["g"][g] * 2
+        gb, n = {"full": (c, 2), "head": (c, 1), "tail": (c + 1, 1), "both": (lay["both"] * 2, 4)}[part]
         return {"op": "write" if o["op"] == "w" else "discard", "gb": gb, "n": n}
     return {"op": {"f": "flush", "s": "fsync", "k": "shrink", "r": "reopen", "c": "check"}[o["op"]]}
 
@@ -420,13 +433,15 @@ def fam_exhaustive_par(tier, tag, variants=("plain", "backing", "special", "back
             hs = rng.sample(hs, 500)
         for v in variants:
             for h in hs:
-                steps = [_exh_step(o) for o in h["pre"]] + [{"op": "par", "ops": [_exh_step(o) for o in h["par"]]}]
-                if probe:
+                lay = _exh_layout(v)
+                rdl = lay["rd"]
+                steps = list(lay["pre"]) + [_exh_step(o, lay) for o in h["pre"]] + [{"op": "par", "ops": [_exh_step(o, lay) for o in h["par"]]}]
+                if probe and v != "pressure":
                     # harness-side oracle for schedule sweeps: flag clear => a reopened device reads the same
                     steps.append({"op": "probe"})
-                steps += [rd, {"op": "flush"}, {"op": "fsync"}, rd, {"op": "reopen"}, rd]
+                steps += rdl + [{"op": "flush"}, {"op": "fsync"}] + rdl + [{"op": "reopen"}] + rdl
                 for sd in seeds:
-                    out.append(S.mk(f"{tag}-{v}-{_exh_code(h['pre'])}_{_exh_code(h['par'])}-s{sd}", geo, imgs[v], steps, sample_flag=True,
+                    out.append(S.mk(f"{tag}-{v}-{_exh_code(h['pre'])}_{_exh_code(h['par'])}-s{sd}", lay["geo"], imgs[v], steps, sample_flag=True,
                                     sched={"policy": "random" if sd % 2 else "pct", "seed": sd * 7919 + seed}, sched_sweep=sweep))
     return out
 
@@ -485,7 +500,7 @@ def fam_outage(tier, seed, tag, nruns):
     return out
 
 
-def fam_park(tier, tag, variants=("plain", "backing", "special"), nths=None, seed=1, probe=False):
+def fam_park(tier, tag, variants=("plain", "backing", "special"), nths=None, seed=1, probe=False, light=False):
     """park schedules for the pairs of spec/GenOps.tla: the first call of the pair
     runs alone until n of its backend requests have completed and it waits for the
     next one, the second call then runs as far as it gets, then both finish - for
@@ -503,16 +518,20 @@ def fam_park(tier, tag, variants=("plain", "backing", "special"), nths=None, see
         for h in _EXHP[2]:
             if _exh_code(h["pre"]) not in keep_pre:
                 continue
+            if light and (_exh_code(h["pre"]) not in ("", "w0f") or any(o["op"] == "c" for o in h["par"])):
+                continue
             if all(o["op"] in "fskc" for o in h["par"]) or any(o["op"] == "s" for o in h["par"]):
                 continue
             orders = [h["par"], list(reversed(h["par"]))] if h["par"][0] != h["par"][1] else [h["par"]]
             for oi, par in enumerate(orders):
                 for n in nths:
-                    steps = [_exh_step(o) for o in h["pre"]] + [{"op": "par", "ops": [_exh_step(o) for o in par]}]
-                    if probe:
+                    lay = _exh_layout(v)
+                    rdl = lay["rd"]
+                    steps = list(lay["pre"]) + [_exh_step(o, lay) for o in h["pre"]] + [{"op": "par", "ops": [_exh_step(o, lay) for o in par]}]
+                    if probe and v != "pressure":
                         steps.append({"op": "probe"})
-                    steps += [rd, {"op": "flush"}, {"op": "fsync"}, rd, {"op": "reopen"}, rd]
-                    out.append(S.mk(f"{tag}-{v}-{_exh_code(h['pre'])}_{_exh_code(par)}-n{n}", geo, imgs[v], steps, sample_flag=True,
+                    steps += rdl + [{"op": "flush"}, {"op": "fsync"}] + rdl + [{"op": "reopen"}] + rdl
+                    out.append(S.mk(f"{tag}-{v}-{_exh_code(h['pre'])}_{_exh_code(par)}-n{n}", lay["geo"], imgs[v], steps, sample_flag=True,
                                     sched={"policy": "park", "seed": n}))
     return out
 
@@ -914,6 +933,7 @@ def check_C02(chk):
     scens += fam_outage(chk.tier, chk.seed, "c02o", 6 if chk.tier == "quick" else 40)
     scens += fam_park(chk.tier, "c02k", variants=("plain", "special"), seed=chk.seed)
     scens += fam_wide_faults(chk.tier, chk.seed, "c02")
+    scens += fam_exhaustive(chk.tier, "c02x", variants=("pressure",), depth=3, sample=900 if chk.tier == "quick" else None, seed=chk.seed)
     scens += fam_regress()
     res, st = Q.run_batch(scens, chk.wd, known=chk.known_tags(), par=12)
     chk.consume(res, st, props=("C02",))
@@ -973,6 +993,8 @@ def check_C04(chk):
     scens += fam_exhaustive(chk.tier, "c04e", seed=chk.seed)
     scens += fam_exhaustive_par(chk.tier, "c04p", seed=chk.seed)
     scens += fam_park(chk.tier, "c04k", variants=("plain", "backing"), seed=chk.seed)
+    scens += fam_exhaustive(chk.tier, "c04x", variants=("pressure",), depth=2 if chk.tier == "quick" else 3, seed=chk.seed)
+    scens += fam_exhaustive_par(chk.tier, "c04y", variants=("pressure",), parn=2, seeds=(1,), sample=500 if chk.tier == "quick" else None, seed=chk.seed)
     scens += fam_regress()
     res, st = Q.run_batch(scens, chk.wd, mode="crash", known=chk.known_tags(), par=14)
     chk.consume(res, st, props=("C04",))
@@ -995,6 +1017,8 @@ def check_C05(chk):
     scens += fam_exhaustive(chk.tier, "c05e", seed=chk.seed)
     scens += fam_exhaustive_par(chk.tier, "c05p", seed=chk.seed)
     scens += fam_park(chk.tier, "c05k", variants=("plain", "backing"), seed=chk.seed)
+    scens += fam_exhaustive(chk.tier, "c05x", variants=("pressure",), depth=2 if chk.tier == "quick" else 3, seed=chk.seed)
+    scens += fam_exhaustive_par(chk.tier, "c05y", variants=("pressure",), parn=2, seeds=(1,), sample=500 if chk.tier == "quick" else None, seed=chk.seed)
     scens += fam_regress()
     res, st = Q.run_batch(scens, chk.wd, mode="crash", known=chk.known_tags(), par=14)
     chk.consume(res, st, props=("C05",))
@@ -1013,6 +1037,8 @@ def check_C06(chk):
     scens += fam_cowread(chk.tier, chk.seed, "c06r", 30 if chk.tier == "quick" else 500)
     scens += fam_exhaustive_par(chk.tier, "c06p", seed=chk.seed, seeds=(1, 2, 3))
     scens += fam_park(chk.tier, "c06k", seed=chk.seed)
+    scens += fam_exhaustive_par(chk.tier, "c06x", variants=("pressure",), parn=2, seeds=(1,) if chk.tier == "quick" else (1, 2, 3), sample=300 if chk.tier == "quick" else None, seed=chk.seed)
+    scens += fam_park(chk.tier, "c06y", variants=("pressure",), nths=(2, 5, 8) if chk.tier == "quick" else None, light=chk.tier == "quick", seed=chk.seed)
     scens += fam_regress()
     res, st = Q.run_batch(scens, chk.wd, known=chk.known_tags(), par=14)
     chk.consume(res, st, props=("C06", "C01", "C02"))
@@ -1382,6 +1408,7 @@ def check_C07(chk):
     scens += gr
     scens += fam_exhaustive_par(chk.tier, "c07p", seed=chk.seed, sweep=3 if chk.tier == "quick" else 5)
     scens += fam_park(chk.tier, "c07k", seed=chk.seed)
+    scens += fam_exhaustive_par(chk.tier, "c07x", variants=("pressure",), parn=2, seeds=(1,), sweep=3, sample=300 if chk.tier == "quick" else None, seed=chk.seed)
     scens += fam_regress()
     res, st = Q.run_batch(scens, chk.wd, known=chk.known_tags(), par=14)
     chk.consume(res, st, props=("C07", "PANIC"))
@@ -1413,6 +1440,7 @@ def check_C18(chk):
     scens += fam_exhaustive(chk.tier, "c18e", seed=chk.seed)
     scens += fam_exhaustive_par(chk.tier, "c18p", seed=chk.seed, seeds=(1, 2, 3), probe=True, sweep=10 if chk.tier == "quick" else 40)
     scens += fam_park(chk.tier, "c18k", seed=chk.seed)
+    scens += fam_exhaustive_par(chk.tier, "c18x", variants=("pressure",), parn=2, seeds=(1,), sample=300 if chk.tier == "quick" else None, seed=chk.seed)
     scens += fam_regress()
     res, st = Q.run_batch(scens, chk.wd, known=chk.known_tags(), par=14)
     chk.consume(res, st, props=("C18",))
